@@ -279,6 +279,9 @@ func (v *vdrRun) monitors() {
 	}
 	// ---- C14: temporary directories and chunk files are gone
 	for rel, e := range pk.Tree {
+		if v.underReloc(rel) {
+			continue // a fork VDR refuses (a directory on the way to its files is a link)
+		}
 		if e.Kind == "d" && path.Base(rel) == "tmp" {
 			parent := path.Base(path.Dir(rel))
 			if strings.HasPrefix(parent, "chnk") || strings.HasPrefix(parent, "split") || strings.HasPrefix(parent, "join") {
